@@ -12,4 +12,4 @@ done
 git -C /repo checkout -- . && git -C /repo clean -fdq -- test/testdata && git -C /repo status --short | head
 rm -rf /verif/evidence && mv /tmp/evidence_keep /verif/evidence
 # regenerate the facts for the unchanged tree
-(cd /verif && python3 -c "exec(open('check').read().split('def main():')[0]); st={}; build_go(st, False); run_factx(st)")
+(cd /verif && ./check --facts > /dev/null)
